@@ -22,7 +22,7 @@ func detBytes(label string, n int) []byte {
 func TestC04Stateful(t *testing.T) {
 	theT = t
 	col := ev.New("C04", "stateful",
-		"rapid state machine over put/putNamed/put(meta)/delete/setEACL on 3 owners and a pool of 12 blobs (version-field offsets 0,1,5,200; names from a 3-name pool, several blobs share a name; in half of the cases the alias domain of one name is registered by the committee in advance instead of by the contract), incl. re-put of a live container, delete of a missing one, put after delete, name reuse after deletion, too short blobs, invalid names, calls without the Alphabet and a jump of ten years (alias domains expire; named containers keep working and must still be deletable completely); after every step the whole read API, NNS TXT records of every alias domain, the raw storage traces and the notifications of the transaction are compared with a registry model; non-trivial = a delete followed by a later operation on the same id or the same name",
+		"rapid state machine over put/putNamed/put(meta)/delete/setEACL on 3 owners and a pool of 18 blobs (version-field offsets 0,1,5,69,200; 6 of them end with the owner field or one byte after it; names from a 3-name pool, several blobs share a name; in half of the cases the alias domain of one name is registered by the committee in advance instead of by the contract), incl. re-put of a live container, delete of a missing one, put after delete, name reuse after deletion, too short blobs, invalid names, calls without the Alphabet and a jump of ten years (alias domains expire; named containers keep working and must still be deletable completely); after every step the whole read API, NNS TXT records of every alias domain, the raw storage traces and the notifications of the transaction are compared with a registry model; non-trivial = a delete followed by a later operation on the same id or the same name",
 		"fees are 0 (money is C05)", "a container's name and owner are functions of its blob (the Inner Ring derives them from the blob)", "alias domains are registered by the Container contract itself or, for one name, by the committee in advance (its transactions then carry the committee witness too)")
 	runRapid(t, col, func(rt *rapid.T, h *ev.History) {
 		n := rapid.SampledFrom([]int{1, 1, 3}).Draw(rt, "n")
@@ -38,6 +38,10 @@ func TestC04Stateful(t *testing.T) {
 				pool = append(pool, w.mkBlob(owner, off, i, names[i%len(names)]))
 				i++
 			}
+		}
+		// blobs that end right after the owner field, or one byte later (every field after the owner is optional)
+		for owner := 0; owner < 3; owner++ {
+			pool = append(pool, w.mkBlobTail(owner, 5+owner, 50+owner, "", 0), w.mkBlobTail(owner, 69, 60+owner, "", owner%2))
 		}
 		// the documented alternative to self-registration: the committee registers the alias domain in advance
 		// (no records yet); transactions that touch it carry the committee's witness as well, because the
